@@ -145,6 +145,10 @@ def sprintfAdd (real len : Nat) : SzR :=
   else if real + len ≤ ushrtMax then .ok (real + len)
   else .err                                      -- outbuf_extend returns fewer than len: sprintf_error
 
+/-- string_print_formatted's final test (fix 3738abb): the finished result must respect MaxStringLength too -/
+def sprintfFinish (real : Nat) (limit : Int) : SzR :=
+  if real > toSizeT limit then .err else .ok real
+
 /-- replace_string, replacement longer than a pattern of two or more characters: the decision sequence of the scan
     after the fix.  `dlen` characters are in the MAX-sized destination.  Each step is guarded as in the code. -/
 inductive RStep
